@@ -176,7 +176,7 @@ func c27Handlers(dir, sp string) ([]agent.EventScript, bool) {
 			if _, err := strconv.Atoi(p[0]); err != nil {
 				return nil, false
 			}
-			script := fmt.Sprintf("echo x >> %s/runs.%s; cat > /dev/null", dir, p[0])
+			script := fmt.Sprintf("echo x >> %[1]s/runs.%[2]s; cat /proc/self/environ > %[1]s/env.%[2]s; cat > /dev/null", dir, p[0])
 			if p[1] == "!" {
 				specs = append(specs, script)
 				continue
@@ -269,10 +269,29 @@ func c27Exec(ops []string) []string {
 					ps = append(ps, fmt.Sprintf("%d:%d", r.id, r.n))
 				}
 			}
+			envOut := "-"
+			for _, r := range ran {
+				if r.n == 0 {
+					continue
+				}
+				eb, _ := os.ReadFile(filepath.Join(rl.dir, fmt.Sprintf("env.%d", r.id)))
+				var vars []string
+				for _, kv := range strings.Split(string(eb), "\x00") {
+					if strings.HasPrefix(kv, "SERF_") {
+						vars = append(vars, kv)
+					}
+				}
+				sort.Strings(vars)
+				envOut = hexs(strings.Join(vars, "\x00"))
+				break
+			}
+			for _, p := range files {
+				os.Remove(strings.Replace(p, "runs.", "env.", 1))
+			}
 			if len(ps) == 0 {
-				outs = append(outs, "ran=-")
+				outs = append(outs, "ran=- env=-")
 			} else {
-				outs = append(outs, "ran="+strings.Join(ps, ","))
+				outs = append(outs, "ran="+strings.Join(ps, ",")+" env="+envOut)
 			}
 		case len(f) == 2 && f[0] == "parse":
 			v := unhex(f[1])
@@ -580,6 +599,14 @@ func c27Gen(rng *rand.Rand, tier string) []Case {
 		"hupdate _", "hfire " + hx("n") + " _ " + ue("x")}})
 	out = append(out, Case{ID: "reload-from-none", Nontrivial: true, Tags: []string{"fixed", "reload"}, Ops: []string{
 		"hconf _", "hfire " + hx("n") + " _ " + ue("deploy"), "hupdate 0:!", "hfire " + hx("n") + " _ mf/_", "hfire " + hx("n") + " _ " + ue("a")}})
+	out = append(out, Case{ID: "self-changes", Nontrivial: true, Tags: []string{"fixed", "reload", "self-changes"}, Ops: []string{
+		"hconf 0:" + hx("*"),
+		"hfire " + hx("n") + " " + c30ShowTags(map[string]string{"role": "web", "dc": "east"}) + " " + ue("deploy"),
+		"hfire " + hx("n") + " " + c30ShowTags(map[string]string{"role": "db"}) + " " + ue("deploy"),
+		"hfire " + hx("n") + " " + c30ShowTags(map[string]string{"role": "db", "rack": "r1"}) + " q/" + hx("load") + "/-",
+		"hfire " + hx("n2") + " _ " + ue("x"),
+		"hfire " + hx("n2") + " " + c30ShowTags(map[string]string{"role": "web"}) + " mj/_",
+		"hfire " + hx("n2") + " " + c30ShowTags(map[string]string{"role": "cache"}) + " " + ue("x")}})
 	nReload := 5
 	if tier == "thorough" {
 		nReload = 150
@@ -608,9 +635,29 @@ func c27Gen(rng *rand.Rand, tier string) []Case {
 			}
 			return strings.Join(ps, ",")
 		}
+		// what SelfFunc answers changes between events (tag edits, also a rename), and user events /
+		// queries are fired right after a change with no member event in between
+		selfName, selfTags := "n", map[string]string{}
 		fire := func() string {
-			ev := []string{ue("deploy"), ue("x"), "mj/_", "ml/" + hexs("m") + "~1.2.3.4~_"}[rng.Intn(4)]
-			return "hfire " + hexs("n") + " _ " + ev
+			ev := []string{ue("deploy"), ue("x"), "mj/_", "ml/" + hexs("m") + "~1.2.3.4~_", "q/" + hexs("deploy") + "/-", ue("deploy")}[rng.Intn(6)]
+			switch rng.Intn(4) {
+			case 0:
+				selfTags[[]string{"role", "dc", "rack"}[rng.Intn(3)]] = []string{"web", "db", "east", ""}[rng.Intn(4)]
+			case 1:
+				if len(selfTags) > 0 {
+					ks := make([]string, 0, len(selfTags))
+					for k := range selfTags {
+						ks = append(ks, k)
+					}
+					sort.Strings(ks) // the choice must depend on rng only, not on map order
+					delete(selfTags, ks[rng.Intn(len(ks))])
+				}
+			case 2:
+				if rng.Intn(3) == 0 {
+					selfName = []string{"n", "n2", "node three"}[rng.Intn(3)]
+				}
+			}
+			return "hfire " + hexs(selfName) + " " + c30ShowTags(selfTags) + " " + ev
 		}
 		ops := []string{"hconf " + genSpecs(), fire()}
 		tags := []string{"reload"}
